@@ -21,6 +21,8 @@ type epochPlan struct {
 	deepDev       int
 	deepScenarios []EpochScenario
 	shards        int // first-level shards per deep scenario
+	// baseScenarios: large populations of which only the base execution of every policy is run (0 deviations)
+	baseScenarios []EpochScenario
 }
 
 func epochsFor(row CfgRow) int {
@@ -116,6 +118,10 @@ func runEpochPlan(c *Ctx, pl epochPlan) {
 	for _, sc := range pl.scenarios {
 		units = append(units, epochUnit{sc, pl.maxDev, 0, 1})
 	}
+	for _, sc := range pl.baseScenarios {
+		units = append(units, epochUnit{sc, 0, 0, 1})
+	}
+	c.Extra["base_only_scenarios"] = len(pl.baseScenarios)
 	for _, sc := range pl.deepScenarios {
 		n := pl.shards
 		if n <= 0 {
